@@ -36,6 +36,8 @@ def handle (input : Json) : Except String Json := do
   let strs := fun (k : String) => ((Driver.fldOpt input k).bind (fun j => j.getArr?.toOption)).getD #[] |>.toList.filterMap (fun j => j.getStr?.toOption)
   let decls : List Decl :=
     [Decl.types (f.ifaces.map (fun i => (i.name, SpecKind.interfaceType))),
+     -- aliases of instantiations: candidate type specs that are not named interface types of their own
+     Decl.types ((strs "aliasOf").map (fun n => (n ++ "Alias", SpecKind.indexExpr))),
      Decl.func [Node.other ((strs "localTypes").map (fun n => Node.typeSpec n .interfaceType))],
      Decl.values [Node.other [Node.funcLit ((strs "litTypes").map (fun n => Node.typeSpec n .interfaceType))]]]
   let found := discover (f.ifaces.map (fun i => (i.name, true))) (fileNodes decls)
